@@ -129,12 +129,26 @@ pub fn raw_name_to_ts_field(value: String) -> String {
         .next()
         .map_or(true, |first| !first.is_numeric());
 
-    let valid = valid_chars && does_not_start_with_digit;
+    let valid = !value.is_empty() && valid_chars && does_not_start_with_digit;
 
     if valid {
         value
     } else {
-        format!(r#""{value}""#)
+        // the name becomes a string literal, so the characters which would end or corrupt that
+        // literal have to be escaped
+        let mut quoted = String::with_capacity(value.len() + 2);
+        quoted.push('"');
+        for c in value.chars() {
+            match c {
+                '"' => quoted.push_str("\\\""),
+                '\\' => quoted.push_str("\\\\"),
+                '\n' => quoted.push_str("\\n"),
+                '\r' => quoted.push_str("\\r"),
+                c => quoted.push(c),
+            }
+        }
+        quoted.push('"');
+        quoted
     }
 }
 
